@@ -17,6 +17,11 @@ namespace Props.C17
 theorem gen_structure :
     (Gen.connRegisterAtomic && Gen.connDecrementInsideOnce && Gen.closeReleasesAndClears) = true := by decide
 
+/-- Regenerated: the order of the teardown the model's `stop` / `close` steps assume — Stop cancels the context
+    first (a connection accepted later finds it cancelled), then closes listeners and connections and waits;
+    Close stops the server and the worker pool before it releases handles and clears the caches. -/
+theorem gen_teardown_order : (Gen.stopCancelsFirst && Gen.closeStopsBeforeRelease) = true := by decide
+
 /-- connCount always equals the number of registered connections, and never exceeds MaxConnections,
     whatever the interleaving of accepts, connection exits, the idle reaper and closeAll. -/
 theorem count_is_number_of_registered (max : Nat) (s : St) (h : Reach max s) :
